@@ -23,6 +23,8 @@ WHAT = {
     "B1": "exactly one scenario per examples row, in examples-block then row order; only table-less examples are skipped",
     "B2": "placeholders are substituted in every text-bearing field of a step (name, doc-string, table headings and cells); row scenario at the row's line",
     "B3": "row steps are deep copies: substitution writes never reach the template (nor another row)",
+    "B6": "render_template replaces every <column> of the row (and params) wherever it stands in the text and leaves all other text unchanged",
+    "B7": "after every column operation of the Table API each row still sees the table's headings and has one cell per heading",
     "B4": "Table mutators mark the table modified; scenarios are rebuilt iff a table is modified; building clears the mark",
 }
 
@@ -241,6 +243,91 @@ def check_step_substitution(chk, ix):
               "substitution does not know about" % extra)
     else:
         chk.ok("B2", {"step_text_fields": textual}, nontrivial_key="step fields")
+
+
+def check_render_template(chk, ix):
+    """B6: ScenarioOutlineBuilder.render_template on concrete texts (constant folding of str.replace)."""
+    chk.rule("B6", WHAT["B6"])
+    bc = ix.cls("behave.model:ScenarioOutlineBuilder")
+    f = bc.lookup("render_template")
+    row = [("limit", "5"), ("state", "on"), ("name", "state")]
+    params = [("examples.name", "E1"), ("row.id", "1.2")]
+    texts = ["<limit>", "x > <limit>", "idle -> <state>", "no placeholder", "a <unknown> b", "<limit> and <state>", "<<limit>>", "a > b",
+             "<limit", "limit>", "", "<name>", "-- <examples.name>@<row.id> <limit>", "x<limit>y<limit>z", ">> <state> <<", "<state>>"]
+
+    def oracle(t, with_params):
+        for k, v in row + (params if with_params else []):
+            t = t.replace("<%s>" % k, v)
+        return t
+    it = Interp(ix, name="render_template")
+    it.int_sat = 1000
+    it.list_cap = 100
+    for t in texts:
+        for with_params in (False, True):
+            st = State()
+            st.frames = []
+            r = st.alloc(HObj("dict", kind="dict", items=list(row), label="row"))
+            args = [t, r] + ([st.alloc(HObj("dict", kind="dict", items=list(params), label="params"))] if with_params else [])
+            outs = it.call_function(st, f, args, {}, None, self_val=ClassVal(bc) if f.kind == "classmethod" else None)
+            chk.instance("B6")
+            if len(outs) != 1 or outs[0][1] not in ("val",) or not isinstance(outs[0][2], str):
+                raise AnalysisError("render_template not foldable on %r: %r" % (t, [(k, v) for _, k, v in outs][:3]))
+            want = oracle(t, with_params)
+            if outs[0][2] == want:
+                chk.ok("B6", {"template": t, "row": dict(row), "rendered": want}, nontrivial_key=(t, with_params))
+            else:
+                _fail(chk, "B6", f, "%r -> %r" % (t, outs[0][2]), "the template text %r with row %r%s renders as %r; expected %r" % (
+                    t, dict(row), " and params" if with_params else "", outs[0][2], want))
+    chk.absorb(it)
+
+
+def check_table_columns(chk, ix):
+    """B7: Table column operations keep rows and table consistent (rows look their cells up through the headings)."""
+    chk.rule("B7", WHAT["B7"])
+    tc = ix.cls("behave.model:Table")
+    rc = ix.cls("behave.model:Row")
+    ops = [("add_column", ["c"]), ("add_column", ["c", ("x",)]), ("ensure_column_exists", ["c"]), ("ensure_column_exists", ["a"]),
+           ("remove_column", ["a"]), ("remove_columns", [("a",)])]
+    for name, args in ops:
+        f = tc.lookup(name)
+        if f is None:
+            continue
+        it = Interp(ix, name="Table." + name)
+        it.int_sat = 1000
+        it.list_cap = 100
+        st = State()
+        st.frames = []
+        H = st.alloc(HObj("list", kind="list", items=["a", "b"], label="headings"))
+        rows = []
+        for i in range(2):
+            cells = st.alloc(HObj("list", kind="list", items=["%d-a" % i, "%d-b" % i], label="cells"))
+            rows.append(st.alloc(HObj(rc, {"headings": H, "cells": cells, "line": 4 + i, "comments": None}, label="row%d" % i)))
+        me = st.alloc(HObj(tc, {"headings": H, "rows": st.alloc(HObj("list", kind="list", items=rows)), "line": 3, "modified": False}, label="table"))
+        cargs = [st.alloc(HObj("list", kind="list", items=list(a))) if isinstance(a, tuple) and name == "add_column" else a for a in args]
+        outs = it.call_function(st, f, cargs, {}, None, self_val=me)
+        chk.absorb(it)
+        chk.instance("B7")
+        outs = [o for o in outs if not (o[1] == "raise" and o[2].internal == "assert")]
+        if not outs or any(k != "val" for _, k, _ in outs):
+            raise AnalysisError("Table.%s not evaluable on tokens: %r" % (name, [(k, v) for _, k, v in outs][:3]))
+        problems = []
+        th = None
+        for (s2, _, _) in outs:
+            def items(v, _s=s2):
+                return list(_s.obj(v).items) if isinstance(v, Ref) and _s.obj(v).items is not None else v
+            th = items(s2.obj(me).fields["headings"])
+            for r in items(s2.obj(me).fields["rows"]):
+                ro = s2.obj(r)
+                rh, cells = items(ro.fields["headings"]), items(ro.fields["cells"])
+                if rh != th:
+                    problems.append("%s sees the headings %r, the table has %r" % (ro.label, rh, th))
+                elif not isinstance(cells, list) or len(cells) != len(th):
+                    problems.append("%s has the cells %r for the headings %r" % (ro.label, cells, th))
+        if not problems:
+            chk.ok("B7", {"operation": "%s(%s)" % (name, ", ".join(map(repr, args))), "headings": th}, nontrivial_key=(name, repr(args)))
+        else:
+            _fail(chk, "B7", f, "%s%r: %s" % (name, tuple(args), problems[0]), "after Table.%s%r %s: placeholders of the changed column "
+                  "are (not) substituted for rows that existed before the call" % (name, tuple(args), "; ".join(problems)))
 
 
 def check_table_modified(chk, ix):
